@@ -5,5 +5,7 @@ CONSTANTS
   Space = "redef"
   Modes = {"E"}
   EmitCases = FALSE
+  PeekBudget = 0
 INVARIANTS Inv_Ctx Inv_End Inv_Conform
+PROPERTIES Prop_Disc
 CHECK_DEADLOCK FALSE
